@@ -36,7 +36,8 @@ EXPLANATION = (
     "event. R1.4 the dummy start is added on the public path (constant "
     "propagation of add_dummy_start=True along the call chain). R1.5 the "
     "phases are chained: each phase consumes the object the previous phase "
-    "returned.")
+    "returned."
+    " Added: R1.6 every phase over the nested graphs reaches every loop body; R1.7 the uids tying a loop node to its body are handed over unchanged; R1.8 the phases after ingestion run on a deep copy of the model (may-alias escape analysis); R1.9 event-type lists keep their repetitions up to the multiset they are compared with; R1.10 every child of a gate-tree node is translated.")
 TRUSTED = ["receiver-class inference of sa/effects.py (annotations, "
            "isinstance narrowing, constructor assignment, single visible "
            "declaring class)"]
